@@ -119,6 +119,16 @@ func toIdentRefList(base []*meta.Identity, v interface{}) (val.IdentRefList, err
 			refs = append(refs, ref)
 		}
 		return refs, nil
+	case []interface{}: // what a decoded JSON array is
+		refs := make([]val.IdentRef, 0, len(x))
+		for _, s := range x {
+			ref, err := toIdentRef(base, s)
+			if err != nil {
+				return nil, err
+			}
+			refs = append(refs, ref)
+		}
+		return refs, nil
 	}
 	return nil, fmt.Errorf("could not coerce '%v' into identref list", v)
 }
